@@ -36,6 +36,9 @@ register(':=')
 XPath30Parser.unregister('?')
 register('?', bases=(ValueToken,))
 
+# The source of a placeholder is the symbol, not the value set by a call of the partial function
+XPath30Parser.symbol_table['?'].source = property(lambda self: '?')  # type: ignore[assignment]
+
 
 @method('?')
 def nud__placeholder_symbol(self: ValueToken) -> ValueToken:
